@@ -258,6 +258,12 @@ func init() {
 		"(*encoding/json.Decoder).Decode": func(m *Machine, caller *frame, _ *ssa.Function, a []Value) Value {
 			return m.callZZ(caller, "JSONDecode", []Value{a[1]})
 		},
+		"encoding/json.Marshal": func(m *Machine, caller *frame, _ *ssa.Function, a []Value) Value {
+			return m.callZZ(caller, "JSONMarshal", []Value{a[0]})
+		},
+		"encoding/json.Unmarshal": func(m *Machine, caller *frame, _ *ssa.Function, a []Value) Value {
+			return m.callZZ(caller, "JSONUnmarshal", []Value{a[0], a[1]})
+		},
 		"os.RemoveAll": func(m *Machine, _ *frame, _ *ssa.Function, a []Value) Value { return Iface{} },
 		"os.MkdirAll": func(m *Machine, caller *frame, _ *ssa.Function, a []Value) Value {
 			return m.callZZ(caller, "MkdirAll", []Value{a[0]})
